@@ -130,10 +130,16 @@ func genInput(gen string) []byte {
 	if p[0] == "nest" {
 		var depth int
 		fmt.Sscanf(p[2], "%d", &depth)
-		unit := map[string][]byte{"object": {3, 0, 0}, "ecma": {8, 0, 0, 0, 1, 0, 0}, "strict": {0x0a, 0, 0, 0, 1}, "alt": {3, 0, 0, 0x0a, 0, 0, 0, 1}}[p[1]]
+		unit := map[string][]byte{"object": {3, 0, 0}, "ecma": {8, 0, 0, 0, 1, 0, 0}, "strict": {0x0a, 0, 0, 0, 1}, "alt": {3, 0, 0, 0x0a, 0, 0, 0, 1}, "kstrict": {0x0a, 0, 0, 0, 1}, "kecma-strict": {0x0a, 0, 0, 0, 1}}[p[1]]
 		body := amf(s("connect"), n(1))
 		if len(p) > 3 && p[3] == "meta" {
 			body = amf(s("onMetaData"))
+		}
+		switch p[1] {
+		case "kstrict": // an object whose one property holds the chain of strict arrays
+			body = append(body, 3, 0, 1, 'k')
+		case "kecma-strict": // the same inside an ECMA array
+			body = append(body, 8, 0, 0, 0, 1, 0, 1, 'k')
 		}
 		for i := 0; i < depth; i++ {
 			body = append(body, unit...)
@@ -503,14 +509,14 @@ func buildCases(r *vk.Run) []protox.Case {
 		cs = append(cs, mkCase("handshaken", "fragment-bytewise", "", full, 0))
 	}
 	// (iii) AMF nesting, inside connect and inside metadata of a publisher
-	for _, fam := range []string{"object", "ecma", "strict", "alt"} {
+	for _, fam := range []string{"object", "ecma", "strict", "alt", "kstrict", "kecma-strict"} {
 		for _, depth := range []int{1, 8, 63, 64, 65, 1000, 100000} {
 			d, _ := json.Marshal(caseData{Stage: "handshaken", Gen: fmt.Sprintf("nest:%s:%d", fam, depth), Frag: -1})
 			cs = append(cs, protox.Case{Key: "handshaken/nest-connect/" + fam, Data: d})
 			d, _ = json.Marshal(caseData{Stage: "publishing", Gen: fmt.Sprintf("nest:%s:%d:meta", fam, depth), Frag: -1})
 			cs = append(cs, protox.Case{Key: "publishing/nest-metadata/" + fam, Data: d})
 		}
-		max := (1<<24 - 64) / map[string]int{"object": 3, "ecma": 7, "strict": 5, "alt": 8}[fam]
+		max := (1<<24 - 64) / map[string]int{"object": 3, "ecma": 7, "strict": 5, "alt": 8, "kstrict": 5, "kecma-strict": 5}[fam]
 		d, _ := json.Marshal(caseData{Stage: "handshaken", Gen: fmt.Sprintf("nest:%s:%d", fam, max), Frag: -1})
 		cs = append(cs, protox.Case{Key: "handshaken/nest-connect-16MiB/" + fam, Data: d})
 		d, _ = json.Marshal(caseData{Stage: "publishing", Gen: fmt.Sprintf("nest:%s:%d:meta", fam, max), Frag: -1})
